@@ -6,12 +6,14 @@ pub mod c02;
 pub mod c03;
 pub mod c04;
 pub mod c05;
+pub mod c06;
 pub mod c07;
 pub mod c08;
 pub mod c09;
 pub mod c10;
 pub mod c11;
 pub mod c12;
+pub mod c14;
 pub mod c15;
 pub mod c16;
 pub mod c17;
@@ -31,10 +33,12 @@ pub fn gen(prop: &str, tier: &str, seed: u64) -> Gen {
         "C03" => c03::gen(tier, seed),
         "C04" => c04::gen(tier, seed),
         "C05" => c05::gen(tier, seed),
+        "C06" => c06::gen(tier, seed),
         "C07" => c07::gen(tier, seed),
         "C08" => c08::gen(tier, seed),
         "C09" => c09::gen(tier, seed),
         "C12" => c12::gen(tier, seed),
+        "C14" => c14::gen(tier, seed),
         "C15" => c15::gen(tier, seed),
         "C16" => c16::gen(tier, seed),
         "C10" => c10::gen(tier, seed),
@@ -54,10 +58,12 @@ pub fn run(prop: &str, case: &Term) -> Term {
         "C03" => c03::run(case),
         "C04" => c04::run(case),
         "C05" => c05::run(case),
+        "C06" => c06::run(case),
         "C07" => c07::run(case),
         "C08" => c08::run(case),
         "C09" => c09::run(case),
         "C12" => c12::run(case),
+        "C14" => c14::run(case),
         "C15" => c15::run(case),
         "C16" => c16::run(case),
         "C10" => c10::run(case),
